@@ -4,13 +4,13 @@ package main
 // transient Spec name, and what writing/removing under that name does to the directory tree.
 
 import (
-	"sync"
 	"encoding/json"
 	"flag"
 	"fmt"
 	"os"
 	"path/filepath"
 	"strings"
+	"sync"
 	"time"
 
 	"tags.cncf.io/container-device-interface/pkg/cdi"
